@@ -1626,6 +1626,17 @@ func (w *ResponseWriter) WriteMsg(res *dns.Msg) error {
 		ctx = context.Background()
 	}
 
+	// RFC 7871 §7.3: a response whose ECS option does not echo the subnet
+	// this request forwarded MUST be dropped. The scope below is built from
+	// the ECHOED address, so without this an answer obtained for one subnet
+	// would be keyed on — and later served to — whichever subnet the option
+	// names, and the client that asked would be handed an answer the
+	// authority declared valid for somebody else. Dropping at this layer
+	// means: nothing is stored, the client gets a request-local SERVFAIL.
+	if w.clientScope.IsValid() && !ecs.ResponseEchoes(res, w.clientScope) {
+		return w.ResponseWriter.WriteMsg(w.ecsEchoMismatchFailure(res))
+	}
+
 	// Resolution failures live in the dedicated RFC 9520 cache. They bypass
 	// ordinary CacheEntry handling entirely: no CNAME chase, no prefetch, no
 	// RR TTL, and no replay of an upstream EDE. The first response is still
@@ -1750,6 +1761,28 @@ func cacheableResolutionFailure(ctx context.Context, res *dns.Msg) bool {
 		!middleware.IsBestEffortRecursionWork(ctx) &&
 		middleware.RecursionWorkEnforcementError(ctx) == nil &&
 		middleware.RequestLocalFailureForResponse(ctx, res) == nil
+}
+
+// ecsEchoMismatchFailure is what the client receives in place of a response
+// that had to be dropped for its ECS option (see WriteMsg). Built from the
+// request like recursionWorkFailure, never recorded in the failure cache:
+// it says nothing about the name, only about this one exchange.
+func (w *ResponseWriter) ecsEchoMismatchFailure(fallback *dns.Msg) *dns.Msg {
+	req := w.req
+	if req == nil {
+		req = fallback
+	}
+	do := false
+	if opt := req.IsEdns0(); opt != nil {
+		do = opt.Do()
+	}
+	return dnsutil.SetRcodeWithEDE(
+		req,
+		dns.RcodeServerFailure,
+		do,
+		dns.ExtendedErrorCodeInvalidData,
+		"EDNS Client Subnet in the response does not match the query",
+	)
 }
 
 func (w *ResponseWriter) recursionWorkFailure(fallback *dns.Msg) *dns.Msg {
